@@ -292,6 +292,10 @@ def run(ctx) -> None:
     from .c10 import check_first_failure
 
     check_first_failure(ctx, "C02.R4")
+    # ... and which result belongs to which item never depends on the completion order or the concurrency limit
+    from .c10 import check_async_map_order
+
+    check_async_map_order(ctx, "C02.R4")
 
     # ---- R5 -------------------------------------------------------------------
     # premise of the 'interrupts are async only' exemptions below: the sync runner registers no executor for
